@@ -19,6 +19,7 @@ class SpecInfo:
         self.parent.update({c["name"]: c["parent"] for c in spec["concretes"]})
         self.fields = {c["name"]: [(n, t) for n, t in c["fields"]] for c in spec["concretes"]}
         self.weight = {c["name"]: c.get("weight") for c in spec["concretes"]}
+        self.weight.update({a["name"]: a.get("weight") for a in spec["abstracts"]})
         self.considered = list(spec["considered"])
         self.start = spec["start"]
         self.expansion = bool(spec.get("expansion", False))
